@@ -7,6 +7,8 @@
 #include "base64.h"
 #include <limits.h>
 #include <dirent.h>
+#include <signal.h>
+#include <sys/stat.h>
 
 static std::string S(long v) { return std::to_string(v); }
 extern "C" void wencry_verif_point(int, int) {}
@@ -222,7 +224,7 @@ static void suite_argvhist(Rng &rng) {
   const std::vector<std::string> ins = {in_ok, in2, "nope.txt", inlong, "", "out.bin", inpct, inpct2};
   const std::vector<std::string> outs = {"out.bin", "out2", "sub/y", "nodir/x", "", in_ok, "-e"};
   const std::vector<std::string> keys = {KEY_OK, KEY2, "not-a-key", "short", "ABEiM0RVZneImaq7zN3u/w=", ""};
-  const std::vector<std::string> nums = {"0", "1", "2", "3", "4", "5", "9", "-1", " 2", "2x", "", "256", "+1"};
+  const std::vector<std::string> nums = {"0", "1", "2", "3", "4", "5", "9", "-1", " 2", "2x", "", "256", "+1", "99999999999999999999", "-99999999999999999999", "4294967297", "1e0", "0x2"};
   auto pick = [&](const std::vector<std::string> &v) { return v[rng.below((uint32_t)v.size())]; };
   auto with_arg = [&](std::vector<std::string> &out, const std::string &sh, const std::vector<std::string> &longs, const std::string &val) {
     switch (rng.below(5)) {
@@ -404,7 +406,7 @@ static void suite_bin(Rng &rng) {
   bin_case({D, opt_i("g.wenc", true), opt_o("-k", true), {"", {KEY_OK}}}, 0, "-o swallows -k");
   bin_case({E, D, opt_i("p.txt", true)}, 1, "two modes");
   bin_case({{"V", {"-V"}}}, 1, "version"); bin_case({{"h", {"-h"}}}, 1, "help");
-  for (const char *c : {"-1", "5", "7", "255", "256", "257", "260", "300", "512", "-256", "65537", "abc", "4"}) {
+  for (const char *c : {"-1", "5", "7", "255", "256", "257", "260", "300", "512", "-256", "65537", "abc", "4", "4294967297", "-4294967295", "4294967296", "99999999999999999999", "-99999999999999999999", "18446744073709551617"}) {
     bin_case({E, opt_i("p.txt", true), opt_o("out8", true), opt_c(c)}, 1, std::string("--cmode ") + c);
     long n = strtol(c, NULL, 10);
     if (n < 0 || n > 4) for (const char *md : {"-e", "-d", "-v"}) {   // property oracle: an out-of-range mode number is diagnosed, whatever the operation
@@ -412,7 +414,7 @@ static void suite_bin(Rng &rng) {
       if (r.status == 0 || r.sig) emitA("bin", "C17", std::string("out-of-range --cmode ") + c + " with " + md + ": exit status " + S(r.status) + " signal " + S(r.sig) + " (expected a diagnostic and a non-zero status)");
     }
   }
-  for (const char *h : {"3", "256", "258", "-255", "2"}) {
+  for (const char *h : {"3", "256", "258", "-255", "2", "4294967297", "-99999999999999999999", "8589934594"}) {
     bin_case({E, opt_i("p.txt", true), opt_o("out9", true), opt_h(h)}, 1, std::string("--hmode ") + h);
     long n = strtol(h, NULL, 10);
     if (n < 0 || n > 2) { Run r = run_bin({"-e", "-i", "p.txt", "-o", "outn", "--hmode", h}); g_runs++;
@@ -429,6 +431,20 @@ static void suite_bin(Rng &rng) {
   for (const char *k : {"AAAAAAAAAAAAAAAAAAAAAAAA", "AAAAAAAAAAAAAAAAAAAAAAA=", "short", ""}) { bin_case({E, opt_i("p.txt", true), opt_o("outa", true), opt_k(k)}, 1, "malformed key"); bin_case({D, opt_i("g.wenc", true), opt_o("outb", true), opt_k(k)}, 1, "malformed key"); }
   { Run r = run_bin({"-en", "-i", "p.txt", "-o", "outc1", "-k", KEY_OK}); g_runs++; if (r.status != 0 || read_file("outc1").empty()) emitA("bin", "C17", "-en -i F -o G -k K (encrypt, no echo) failed: status " + S(r.status));
     Run d = run_bin({"-d", "-i", "g.wenc", "-k", KEY_OK, "-no", "outc2"}); g_runs++; if (d.status != 0 || read_file("outc2") != plain) emitA("bin", "C17", "-d -i F -k K -no G (decrypt, no echo, output G) failed: status " + S(d.status)); }
+  // inputs that open but are not regular files: a directory, /dev/null, a FIFO with a writer that closes at once -- no crash, a definite exit status
+  { mkdir("adir", 0755); mkfifo("afifo", 0600);
+    for (const char *md : {"-e", "-d", "-v"}) for (const char *inp : {"adir", "/dev/null", "afifo"}) {
+      pid_t wr = -1; if (!strcmp(inp, "afifo")) { wr = fork(); if (wr == 0) { int fd = open("afifo", O_WRONLY); if (fd >= 0) close(fd); _exit(0); } }
+      Run r = run_bin({md, "-i", inp, "-o", "outs", "-k", KEY_OK}); g_runs++;
+      if (wr > 0) { kill(wr, SIGKILL); int st; waitpid(wr, &st, 0); }
+      if (r.sig || r.status == 99 || r.status == 98 || r.status == 134 || r.status == 139) emitA("bin", "C17", std::string("the program crashed (signal ") + S(r.sig) + ", status " + S(r.status) + ") on " + md + " -i " + inp + " (an input that opens but is not a regular file)");
+      if (md[1] != 'e' && r.status == 0) emitA("bin", "C17", std::string(md) + " -i " + inp + " (not an encrypted file) exits 0");
+    }
+    unlink("afifo"); rmdir("adir"); }
+  // `-v ... -o F`: verification produces no output (F is created by the parser but must stay empty)
+  { unlink("vout"); Run r = run_bin({"-v", "-i", "g.wenc", "-k", KEY_OK, "-o", "vout"}); g_runs++;
+    if (r.status != 0) emitA("bin", "C17", "-v -i F -k K -o G failed, status " + S(r.status));
+    if (!read_file("vout").empty()) emitA("bin", "C12", "-v -i F -k K -o G wrote " + S((long)read_file("vout").size()) + " bytes to G: verification produces no output"); }
   bin_case({E, opt_i("p.txt", true), opt_o("nodir/x", false)}, 1, "unopenable output");
   bin_case({E, opt_i("p.txt", true), {"?", {"-x"}}}, 1, "unknown option");
   emitI("bin", "runs", S(g_runs));
